@@ -32,7 +32,14 @@ Definition d_input (v : val) : input :=
      i_media := dopt dstr (nth_val 4 v); i_stream := dopt d_stream (nth_val 5 v);
      i_sse := dopt (dlist dstr) (nth_val 6 v);
      i_clen := dopt dstr (nth_val 7 v); i_ctype := dopt dstr (nth_val 8 v);
-     i_wrapper := dbool (nth_val 9 v); i_cached := false |}.
+     i_wrapper := dbool (nth_val 9 v); i_cached := false;
+     i_disconnect := dopt dnat (nth_val 10 v);
+     i_media_fails := dbool (nth_val 11 v);
+     i_recovery :=
+       let r := nth_val 12 v in
+       {| rc_status := d_status (nth_val 0 r); rc_text := dopt dstr (nth_val 1 r);
+          rc_data := dopt dstr (nth_val 2 r); rc_media := dopt dstr (nth_val 3 r);
+          rc_media_fails := dbool (nth_val 4 r); rc_ctype := dopt dstr (nth_val 5 r) |} |}.
 
 Definition d_step (v : val) : step :=
   let t := dZ (nth_val 0 v) in
@@ -71,23 +78,23 @@ Definition d_aevent (v : val) : aevent :=
 Definition run (v : val) : val :=
   match v with
   | L [I 0; by_code; i] =>
-    let i' := d_input i in
+    let i' := effective (d_input i) in
     match wsgi_emit (dbool by_code) i' with
     | None => L [I 0]
     | Some st => let o := wobs_of st in
                  L (I 1 :: v_wobs o ++ [vlist vnat (oracle_wsgi i' o)])
     end
   | L [I 1; i; fa] =>
-    let i' := d_input i in
+    let i' := effective (d_input i) in
     match asgi_emit_f i' (d_sendfault fa) with
     | None => L [I 0]
     | Some o => L [I 1; vlist v_aevent (ao_events o); vbool (ao_raised o); vnat (ao_reads o);
                    vnat (ao_closes o); vlist vnat (oracle_asgi i' o)]
     end
   | L [I 2; i; st; cl; ct; ch; ra; rd; cs] =>
-    L [I 1; vlist vnat (oracle_wsgi (d_input i) (d_wobs st cl ct ch ra rd cs))]
+    L [I 1; vlist vnat (oracle_wsgi (effective (d_input i)) (d_wobs st cl ct ch ra rd cs))]
   | L [I 3; i; evs; ra; rd; cs] =>
-    L [I 1; vlist vnat (oracle_asgi (d_input i)
+    L [I 1; vlist vnat (oracle_asgi (effective (d_input i))
                           {| ao_events := dlist d_aevent evs; ao_raised := dbool ra;
                              ao_reads := dnat rd; ao_closes := dnat cs |})]
   (* the same four ops for responses built in several steps (op + 10) *)
